@@ -1480,6 +1480,27 @@ def rule_fmt_pure(prog):
             c.loc((bad_split or fmt_bodies[0])["sp"]), "the layout step splits rendered text at a character other than the line feed: a token that "
             "contains that character (a carriage return in a character literal) is broken in two, the formatted program has other tokens", ("split",))
 
+    # ... and it is only put together, never rewritten by content: a lexeme may contain any character (a raw tab inside a character
+    # literal, anything inside a comment), so replacing a character in rendered text changes tokens
+    bad_rw, undec_rw = None, None
+    for b in fmt_bodies:
+        for mc in hir.nodes(b["body"], "MethodCall"):
+            rt_ = c.tstr(hir.strip(mc["recv"])["t"]) + "".join(c.tstr(a_["to"]) for a_ in (hir.strip(mc["recv"]).get("adj") or []))
+            if not ("str" in rt_ or "String" in rt_):
+                continue
+            if mc["m"] in ("replace", "replacen") and mc["args"]:
+                v = hir.lit_value(hir.strip_ref(mc["args"][0]))
+                if v is None:
+                    undec_rw = mc
+                elif v not in ("\n", "\\n"):
+                    bad_rw = mc
+            if mc["m"] in ("to_lowercase", "to_uppercase", "to_ascii_lowercase", "to_ascii_uppercase", "make_ascii_lowercase",
+                           "make_ascii_uppercase", "retain"):
+                bad_rw = mc
+    out.add("formatting::fmt", "rendered text is put together, not rewritten by content", None if (bad_rw is None and undec_rw is not None) else bad_rw is None,
+            c.loc((bad_rw or undec_rw or fmt_bodies[0])["sp"]), "a character other than the line feed is replaced in rendered text: a lexeme that contains it "
+            "(a raw tab in a character literal, with insertSpaces) becomes another token or none, the formatted program is a different one", ("rewrite",))
+
     def sig(b):
         if "sig_in" not in b:
             return None, None
@@ -1626,7 +1647,9 @@ def rule_fmt_pure(prog):
             ok = this if ok is None else (ok and this)
     if n_rng == 0:
         ok = False
-    out.add("formatting::format", "the edit replaces exactly the whole document (0..text.len())", ok, c.loc(f["sp"]), "")
+    out.add("formatting::format", "the edit replaces exactly the whole document (0..text.len())", ok, c.loc(f["sp"]),
+            "an edit that ends before the end of the document leaves the last source lines standing behind the formatted text: their "
+            "comments (and tokens) appear twice", ("wholedoc",))
     return out
 
 
@@ -1787,6 +1810,75 @@ def rule_comment_pairing(prog):
                 out.add(b["d"], "token texts collected from a reversed iterator are turned round again", turned_back, c.loc(mc["sp"]),
                         "the comments are gathered walking backwards and joined in that order: two comment lines come out swapped, and "
                         "every further formatting run swaps them again (never `null`)", ("order",))
+    # order (2): the parser gives a comment to the token that follows it.  Comment text that is collected on its own (a helper applied to
+    # an empty text) and then put *behind* text of the node belongs to another node on the next run, which prints it where it prints its
+    # own comments: the second run changes the text again.
+    n_concat, behind = 0, None
+    for b in c.bodies:
+        if not b["p"].startswith("lsp4spl::features::formatting") or "/tests" in c.file_of(b["sp"]) or b["k"] == "closure":
+            continue
+        ctext = set()      # locals that hold comment text only
+        for l_ in hir.nodes(b["body"], "Let"):
+            if l_.get("init") is None or l_["pat"].get("k") != "Binding":
+                continue
+            i_ = hir.strip_ref(l_["init"])
+            if i_.get("k") == "Index":
+                i_ = hir.strip_ref(i_["base"])
+            if i_.get("k") == "Call" and (hir.callee(i_) or "") in helper_ps and i_["args"]:
+                a0 = hir.strip(i_["args"][0])
+                empty = (a0.get("k") == "Call" and last(hir.callee(a0) or "") in ("new", "default") and not a0["args"]) or \
+                    hir.lit_value(a0) == "" or (a0.get("k") in ("MethodCall", "Call") and
+                                               any(hir.lit_value(x_) == "" for x_ in hir.nodes(a0, "Lit")) and
+                                               not any((hir.path_local(x_) or {}) for x_ in hir.nodes(a0, "Path")))
+                if empty:
+                    ctext.add(l_["pat"]["id"])
+            pl_ = hir.path_local(i_)
+            if pl_ and pl_["id"] in ctext:
+                ctext.add(l_["pat"]["id"])
+        if not ctext:
+            continue
+        ntext = {bd["id"] for pp in b["params"] for bd in hir.pat_bindings(pp) if "String" in c.tstr(pp["t"]) or c.tstr(pp["t"]).endswith("str")}
+        for l_ in hir.nodes(b["body"], "Let"):
+            if l_.get("init") is not None and l_["pat"].get("k") == "Binding" and \
+                    any(x_.get("k") == "MethodCall" and x_["m"] == "fmt" for x_ in hir.nodes(l_["init"])):
+                ntext.add(l_["pat"]["id"])
+
+        def kind_of(e_):
+            ids = {(hir.path_local(x_) or {}).get("id") for x_ in hir.nodes(e_, "Path")}
+            if ids & ntext or any(x_.get("k") == "MethodCall" and x_["m"] == "fmt" for x_ in hir.nodes(e_)):
+                return "node"
+            if ids & ctext:
+                return "comments"
+            return None
+
+        def flat(e_):
+            e_ = hir.strip_ref(e_)
+            if e_.get("k") == "Binary" and e_["op"] == "+":
+                return flat(e_["l"]) + flat(e_["r"])
+            return [e_]
+        seqs = []
+        for x_, parents in hir.walk(b["body"]):
+            if x_.get("k") == "Tup" and "desugaring of format string literal" in (x_.get("mx") or []):
+                seqs.append(list(x_["es"]))
+            if x_.get("k") == "Binary" and x_["op"] == "+" and not (parents and parents[-1].get("k") == "Binary" and parents[-1].get("op") == "+"):
+                seqs.append(flat(x_))
+        for sq in seqs:
+            kinds = [kind_of(e_) for e_ in sq]
+            if "comments" not in kinds:
+                continue
+            n_concat += 1
+            seen_node = False
+            for e_, kd in zip(sq, kinds):
+                if kd == "node":
+                    seen_node = True
+                elif kd == "comments" and seen_node and behind is None:
+                    behind = (b, e_)
+    seen += 1
+    out.add("formatting::fmt", "comment text is not put behind text of the node it was collected from", behind is None,
+            c.loc(behind[1]["sp"]) if behind else "", ("%s appends comment text it collected separately behind rendered text; " % behind[0]["d"] if behind else "") +
+            "`p(1, // first⏎ 2);` is printed as `p(1, 2); // first`: on the next run the comment is the leading comment of the following statement "
+            "(or of nobody) and is printed on a line of its own or dropped - formatting formatted text answers another edit "
+            "(%d concatenations with separately collected comment text)" % n_concat, ("order", "behind"))
     # `all` is sound only for nodes whose printed children print no comments themselves: applied to a node whose text was rendered by
     # children that re-attach their own comments (or print raw token slices), every inner comment is printed twice - and again on the
     # next formatting run, so the formatter is not idempotent either
